@@ -17,8 +17,8 @@ import time
 
 VERIF = os.path.dirname(os.path.dirname(os.path.dirname(os.path.abspath(__file__))))
 REPO = os.environ.get("VERIF_REPO", "/repo")
-CACHE = os.path.join(VERIF, ".cache", "rsym")
-HARNESS = os.path.join(os.path.dirname(os.path.abspath(__file__)), "harness")
+CACHE = os.environ.get("VERIF_RSYM_CACHE", os.path.join(VERIF, ".cache", "rsym"))  # overrides: development of a new harness entry next to running checks
+HARNESS = os.environ.get("VERIF_RSYM_HARNESS", os.path.join(os.path.dirname(os.path.abspath(__file__)), "harness"))
 RUSTFLAGS = "-C no-vectorize-loops -C no-vectorize-slp"
 
 
